@@ -697,6 +697,12 @@ func freeVarImmutable(fn *ssa.Function, fv *ssa.FreeVar) bool {
 	if !ok {
 		return false
 	}
+	return allocImmutable(al)
+}
+
+// allocImmutable: the variable cell is assigned at most once and otherwise only read, by the
+// declaring function and by every closure it is bound into (transitively); its address goes nowhere else.
+func allocImmutable(al *ssa.Alloc) bool {
 	stores := 0
 	var readsOnly func(v ssa.Value, depth int) bool
 	readsOnly = func(v ssa.Value, depth int) bool {
